@@ -20,7 +20,7 @@ RULE = (
     "start-position sets (min/max, residues, expansion when small); positions at which R-codec actually placed each "
     "field while encoding sampled values (its bytes validated against pydsdl.serialize) must be members of the yielded "
     "sets; enumerate_elements_with_offsets likewise. part B: definitions with @print _offset_ after every admissible "
-    "field position and @print T._bit_length_ / T._extent_, observed through the print handler, compared with R-layout. "
+    "field position and @print T._bit_length_ / T._extent_, observed through the print handler, compared with R-layout; the offset part is repeated on pickled / copied model objects. "
     "Non-trivial: composite with >=2 fields of which one is variable-length or sub-byte; distinct by (universe, base set)."
 )
 ASSUMPTIONS = ["R-layout / R-codec are the trusted references", "`_offset_` is only queried where the set is small enough to expand"]
@@ -317,6 +317,12 @@ def run_case(ctx, pydsdl, u, small, text_ok, seed, workdir):
     case = {"universe": u, "small": small, "text_ok": text_ok, "seed": seed}
     objs = GT.construct_universe(pydsdl, u)
     part_a(ctx, pydsdl, u, objs, small, seed, case)
+    if seed % 2 == 0:
+        # the same statements about the model objects after a pickle round trip / copy (how they reach a code generator from a cache)
+        for label, cs in GT.copies(objs, random.Random(seed ^ 0xC0B1)):
+            ctx.mon("copies")
+            ctx.cls("copy-" + label)
+            part_a(ctx, pydsdl, u, cs, small, seed + 1, dict(case, copy=label))
     if text_ok:
         part_b(ctx, pydsdl, u, seed, workdir, case)
         part_c(ctx, pydsdl, u, seed, workdir, case)
